@@ -55,6 +55,14 @@ func scopeOf(p *Prog, fn *ssa.Function) string {
 // errorSources lists every error-typed value produced in fn.
 func errorSources(fn *ssa.Function) []errSource {
 	var out []errSource
+	if fn.Parent() == nil && fn.Synthetic == "" {
+		for _, prm := range fn.Params {
+			if isErrorType(prm.Type()) && fn.Signature.Results().Len() == 0 {
+				// a function that receives an error and returns nothing must deliver it somewhere
+				out = append(out, errSource{val: prm, instr: firstInstr(fn), what: "error parameter " + prm.Name(), kind: "param"})
+			}
+		}
+	}
 	allInstrs(fn, func(in ssa.Instruction) {
 		switch x := in.(type) {
 		case *ssa.Call:
@@ -166,6 +174,10 @@ func consumeError(p *Prog, v ssa.Value, seen map[ssa.Value]bool, c *consumption)
 		case *ssa.Select:
 			for _, st := range x.States {
 				if st.Send == v {
+					if !x.Blocking {
+						c.tests = append(c.tests, "offered on "+describeValue(st.Chan)+" in a select with a default arm: silently dropped when nobody is receiving yet")
+						continue
+					}
 					c.consumed = true
 					c.how = append(c.how, "sent on "+describeValue(st.Chan)+" (select)")
 				}
@@ -479,6 +491,13 @@ func err1Obligations(w *World) []Ob {
 			}
 			c := &consumption{}
 			consumeError(p, s.val, map[ssa.Value]bool{}, c)
+			if c.consumed {
+				if why := pairedErrorUntested(s); why != "" {
+					ob.Status, ob.Detail = Violation, why
+					l.add(ob)
+					continue
+				}
+			}
 			switch {
 			case c.consumed:
 				ob.Status, ob.Detail = OK, strings.Join(dedupSorted(c.how), "; ")
@@ -919,4 +938,51 @@ func isWalkCallback(t types.Type) bool {
 	}
 	p, ok := sig.Params().At(0).Type().(*types.Pointer)
 	return ok && isNamed(p.Elem(), modulePath, "WalkerNode")
+}
+
+
+// pairedErrorUntested: an error that arrives together with another result (v, err := f(); next())
+// must itself be compared with nil, or be handed on under exactly the conditions it was produced
+// under; handing it on only when the *other* result looks wrong lets (value, error) pairs through.
+func pairedErrorUntested(s errSource) string {
+	ex, ok := s.val.(*ssa.Extract)
+	if !ok {
+		return ""
+	}
+	// other results of the tuple that are used at all
+	others := false
+	if tup := ex.Tuple; tup.Referrers() != nil {
+		for _, r := range *tup.Referrers() {
+			if e2, ok := r.(*ssa.Extract); ok && e2 != ex && e2.Referrers() != nil && len(*e2.Referrers()) > 0 {
+				if b, isB := e2.Type().Underlying().(*types.Basic); isB && b.Kind() == types.Bool {
+					continue // the ok flag of a receive / Pull2
+				}
+				others = true
+			}
+		}
+	}
+	if !others {
+		return ""
+	}
+	prodGuards := len(guardsOf(ex.Block()))
+	for _, r := range *ex.Referrers() {
+		switch x := r.(type) {
+		case *ssa.BinOp:
+			if _, _, ok := nilTest(x, true); ok {
+				return ""
+			}
+		case *ssa.Return, *ssa.Send:
+			if len(guardsOf(r.Block())) == prodGuards {
+				return ""
+			}
+		case ssa.CallInstruction:
+			if len(guardsOf(r.Block())) == prodGuards {
+				return ""
+			}
+			_ = x
+		case *ssa.Phi, *ssa.Store, *ssa.MakeInterface:
+			return "" // flows on; judged where it is finally used
+		}
+	}
+	return "the error of " + s.what + " is never compared with nil; it is only passed on under conditions on the accompanying value, so a (value, non-nil error) pair is treated as success"
 }
